@@ -72,6 +72,16 @@ Theorem C16_op_drive_terminates : forall fuel w,
   WInv (w_sess w) -> NAl w -> M (w_sess w) < N.of_nat fuel -> snd (op_drive fuel w) <> OFuel.
 Proof. exact op_drive_terminates. Qed.
 
+(* the measure is bounded by the arena (at most 8 entries per queue, control packets of at most 5 bytes, retained
+   packets inside the arena), so the model's fuel of 30 000 is never reached by drive() in any reachable world of a
+   client whose transmit arena is at most 29 000 bytes: for every program, script and broker *)
+Theorem C16_measure_bounded : forall s, Inv.Inv s -> M s <= lenN (ob_buf (s_ob s)) + 133.
+Proof. exact M_bounded. Qed.
+
+Theorem C16_reachable_drive_terminates : forall c, cf_tx (c_cfg c) <= 29000 ->
+  let w := run_case c in halted w = false -> snd (op_drive FUEL w) <> OFuel.
+Proof. exact reachable_drive_terminates. Qed.
+
 (* a resumed connection with a retained publish to replay: the premises hold, drive() sends it and the work is 0 *)
 Theorem C16_terminate_example :
   w_live ex_resumed = true /\ work (s_ob (w_sess ex_resumed)) = 13 /\ M (w_sess ex_resumed) < N.of_nat FUEL /\
@@ -92,3 +102,5 @@ Print Assumptions C16_drive_loop_terminates.
 Print Assumptions C16_flush_outbound_terminates.
 Print Assumptions C16_op_drive_terminates.
 Print Assumptions C16_terminate_example.
+Print Assumptions C16_measure_bounded.
+Print Assumptions C16_reachable_drive_terminates.
